@@ -3,6 +3,7 @@ mostly valid), environments.  Every random choice comes from the Random passed i
 from __future__ import annotations
 
 import random
+import re
 
 NAMES = ["a", "b", "c", "d", "ab", "", "a b", "'", '"', "\\", "é", "😀", "\n", "\x00", "_x", "A1",
          # every supplementary plane parity (surrogate arithmetic), and quotes at the ends
@@ -328,6 +329,10 @@ def mutate(rng: random.Random, q: str) -> str:
         return rng.choice(TOKENS)
     k = rng.random()
     i = rng.randrange(len(q))
+    if k < 0.1:
+        m = structural(rng, q)
+        if m is not None:
+            return m
     if k < 0.25:
         return q[:i] + q[i + 1 :]
     if k < 0.5:
@@ -343,6 +348,24 @@ def mutate(rng: random.Random, q: str) -> str:
         return q[:i] + rng.choice(TOKENS) + q[i:]
     j = rng.randrange(i, len(q))
     return q[:i] + q[j:]
+
+
+_OPERAND = re.compile(r"""(?:[@$](?:\.[A-Za-z_]\w*|\[\d+\]|\['[^'\\]*'\])*|\b[a-z_]\w*\([^()]*\)|-?\d+(?:\.\d+)?|'[^'\\]*'|"[^"\\]*"|\btrue\b|\bfalse\b|\bnull\b)""")
+
+
+def structural(rng: random.Random, q: str):
+    """One edit that keeps the text well bracketed: an operand (query, call, literal) gains parentheses or a negation,
+    is doubled with an operator, or swaps sides with its neighbour — almost-valid filters whose verdict hangs on one
+    grammar rule (comparands are not parenthesized or negated, literals are not tests, ...)."""
+    ms = list(_OPERAND.finditer(q))
+    ms = [m for m in ms if m.end() > m.start()]
+    if not ms:
+        return None
+    m = rng.choice(ms)
+    t = m.group(0)
+    r = rng.choice(["(" + t + ")", "!" + t, "!(" + t + ")", "((" + t + "))", "( " + t + " )", t + " == " + t, t + " && " + t,
+                    "(" + t + " || " + t + ")", t + " < (" + t + ")", "(" + t + ") >= " + t, "!!" + t, "-" + t, "(" + t, t + ")"])
+    return q[: m.start()] + r + q[m.end() :]
 
 
 def soup(rng: random.Random, n=None) -> str:
